@@ -247,7 +247,7 @@ def build_fail(st, r):
                  "O": ["items"], "U": ["items"]}[rt]
         return ["fail", "set", i, gen.choice(r, field), "A", gen.choice(r, ["set", "attr"]), "readonly_field"]
     if k == 7 and gen.chance(r, 0.5) and real_named:
-        # an identifier which is not valid for the record type (refused at vlevel 3)
+        # an identifier which is not valid for the record type (refused at vlevel >= 1)
         i = next(i_ for i_, x in enumerate(m.recs) if x is gen.choice(r, real_named) or True)
         cands = [i_ for i_, x in enumerate(m.recs) if M.name_of(x) is not None and not (version == "gfa1" and x.rt in "LC")]
         return ["fail", "rename", gen.choice(r, cands), gen.choice(r, ["a b", "x\ty", "é"]), "invalid_name_vlevel3"]
@@ -299,8 +299,10 @@ def gen_case(r, version):
             f = build_fail(st_, r)
             if f is None:
                 continue
-            if f[-1] in ("invalid_value_vlevel3", "invalid_name_vlevel3") and vlevel < 3:
+            if f[-1] == "invalid_value_vlevel3" and vlevel < 3:
                 continue
+            if f[-1] == "invalid_name_vlevel3" and vlevel < 1:
+                continue  # (the name of the kind is historical: an invalid name is refused from vlevel 1 on, D79)
             if f[-1] == "header_datatype_clash" and vlevel < 2:
                 continue
             ops.append(f)
